@@ -498,12 +498,28 @@ def tail_rule(ctx):
             res.ok("%s: outside the bound outputs = inputs and logabsdet = 0" % outer.name)
         else:
             res.fail(Finding("SPL-TAIL", outer.module, outer.qualname, fn, "outside the tail bound the transform must be the identity with zero log-abs-det (identity %s, zero log-det %s)" % (id_ok, ld_ok), construct="identity tails of " + outer.name))
+        # rq: boundary derivative constant from the same min_derivative
+        if "min_derivative" in params:
+            consts = [n for n in ast.walk(fn) if isinstance(n, ast.Assign) and "np.exp(1 - " in norm_text(n.value)]
+            okc = any(norm_text(n.value).replace(" ", "") == "np.log(np.exp(1-min_derivative)-1)" for n in consts)
+            stores = [n for n in ast.walk(fn) if isinstance(n, ast.Assign) and isinstance(n.targets[0], ast.Subscript) and norm_text(n.targets[0].value) == "unnormalized_derivatives"]
+            idxs = {norm_text(n.targets[0].slice).replace(" ", "") for n in stores}
+            if okc and {"(...,0)", "(...,-1)"} <= idxs:
+                res.ok("%s: boundary derivatives set so that min_derivative + softplus(c) = 1 at both ends" % outer.name)
+            else:
+                res.fail(Finding("SPL-TAIL", outer.module, outer.qualname, fn, "the boundary derivatives must be pinned at both ends with c = log(exp(1 - min_derivative) - 1), built from the same min_derivative that is forwarded", construct="boundary derivatives of " + outer.name))
         # inner call: square box in B
         calls = [c for c in ast.walk(fn) if isinstance(c, ast.Call) and isinstance(c.func, ast.Name) and c.func.id == inner.name]
-        if len(calls) != 1:
-            res.undecide(outer.name, "expected exactly one call of %s" % inner.name)
+        if not calls:
+            res.undecide(outer.name, "no call of %s" % inner.name)
             continue
-        c = calls[0]
+        for c in calls:
+            _check_inner_call(res, inner, outer, c, B, params, fn)
+    return res
+
+
+def _check_inner_call(res, inner, outer, c, B, params, fn):
+    if True:
         kw = {k.arg: norm_text(k.value).replace(" ", "") for k in c.keywords if k.arg}
         box = (kw.get("left"), kw.get("right"), kw.get("bottom"), kw.get("top"))
         if box == ("-" + B, B, "-" + B, B):
@@ -520,16 +536,6 @@ def tail_rule(ctx):
                     res.ok("%s forwards %s" % (outer.name, hp))
                 else:
                     res.fail(Finding("SPL-TAIL", outer.module, outer.qualname, c, "%s is not forwarded to the inner spline (the tails assume it)" % hp))
-        # rq: boundary derivative constant from the same min_derivative
-        if "min_derivative" in params:
-            consts = [n for n in ast.walk(fn) if isinstance(n, ast.Assign) and "np.exp(1 - " in norm_text(n.value)]
-            okc = any(norm_text(n.value).replace(" ", "") == "np.log(np.exp(1-min_derivative)-1)" for n in consts)
-            stores = [n for n in ast.walk(fn) if isinstance(n, ast.Assign) and isinstance(n.targets[0], ast.Subscript) and norm_text(n.targets[0].value) == "unnormalized_derivatives"]
-            idxs = {norm_text(n.targets[0].slice).replace(" ", "") for n in stores}
-            if okc and {"(...,0)", "(...,-1)"} <= idxs:
-                res.ok("%s: boundary derivatives set so that min_derivative + softplus(c) = 1 at both ends" % outer.name)
-            else:
-                res.fail(Finding("SPL-TAIL", outer.module, outer.qualname, fn, "the boundary derivatives must be pinned at both ends with c = log(exp(1 - min_derivative) - 1), built from the same min_derivative that is forwarded", construct="boundary derivatives of " + outer.name))
     return res
 
 
